@@ -267,6 +267,24 @@ fn signal_family(c: &mut Cat, rng: &mut Rng) {
       let (mut o1, mut o2, mut o3) = (bus.send(), bus.send(), bus.send());
       for _ in 0..4 { bb(o1.next()); bb(o2.next()); bb(o3.next()); }
       c.measure("bus.lockstep_three_outputs_after_warmup", Z, || { for _ in 0..n { bb(o1.next()); bb(o2.next()); bb(o3.next()); bb(o2.pending_frames()); } }); }
+    // every number of live outputs, the single one included: only one `send()` ever; two of three dropped (a monitor
+    // detached while the main output keeps running); an output attached late; all of them pulled in step, no accessor calls
+    { let bus = signal::from_iter(data.iter().cloned()).bus();
+      let mut o = bus.send();
+      for _ in 0..4 { bb(o.next()); }
+      c.measure("bus.single_output_only_ever", Z, || { for _ in 0..n { bb(o.next()); } }); }
+    { let bus = signal::from_iter(data.iter().cloned()).bus();
+      let (mut o1, mut o2, o3) = (bus.send(), bus.send(), bus.send());
+      for _ in 0..4 { bb(o1.next()); bb(o2.next()); }
+      drop(o3); drop(o1);
+      for _ in 0..8 { bb(o2.next()); }
+      c.measure("bus.one_output_left_after_the_others_were_dropped", Z, || { for _ in 0..n { bb(o2.next()); } }); }
+    { let bus = signal::from_iter(data.iter().cloned()).bus();
+      let mut o1 = bus.send();
+      for _ in 0..5 { bb(o1.next()); }
+      let mut o2 = bus.send();
+      for _ in 0..4 { bb(o1.next()); bb(o2.next()); }
+      c.measure("bus.output_attached_late_then_lockstep_two_outputs", Z, || { for _ in 0..n { bb(o2.next()); bb(o1.next()); } }); }
 }
 
 /// formatting and copying the allocation-free types: `Debug`, `Clone`, `PartialEq` of the array-backed ring buffers,
